@@ -234,7 +234,7 @@ class Tap:
                     setattr(mod, attr, wrapper)
                     self._installed.append(("module", mod, attr, original))
 
-    def method(self, cls, name, post=None, pre=None, generator=False, subclasses=True):
+    def method(self, cls, name, post=None, pre=None, generator=False, subclasses=True, documented=None):
         targets = [cls]
         if subclasses:
             seen, stack = set(), list(cls.__subclasses__())
@@ -255,7 +255,7 @@ class Tap:
             if hasattr(raw, "__verif_original__"):
                 continue
             label = "%s.%s" % (target.__name__, name)
-            wrapper = self._make_wrapper(raw, label, pre, post, generator)
+            wrapper = self._make_wrapper(raw, label, pre, post, generator, documented)
             setattr(target, name, wrapper)
             self._installed.append(("class", target, name, raw))
 
